@@ -205,6 +205,10 @@ std::string handle(const std::string& op, Args& a)
 	{
 		// one Minimization object runs the whole sequence in ONE child; then every member is run on a
 		// fresh object in a fresh child.  Answer: ok SEQ <child answer, members joined by |> FRESH <answer> | <answer> ...
+		// Restart members pass the object's OWN state as argument (aliasing): rs  = m.minimize(m.current_simplex, f),
+		// rsd = m.minimize(m.current_simplex[0], deltas, f), rs1 = m.minimize(m.current_simplex[0], delta, f).
+		// Their shared-object answer starts with `IN <mpts> <ndim> <values>`, a copy of the simplex taken just before the
+		// call; the fresh object gets that COPY.
 		struct Member
 		{
 			std::string kind;
@@ -212,6 +216,7 @@ std::string handle(const std::string& op, Args& a)
 			std::vector<double> start, deltas;
 			double delta = 0;
 			std::vector<Tok> pr;
+			bool restart() const { return kind == "rs" || kind == "rsd" || kind == "rs1"; }
 		};
 		double ftol = a.dbl();
 		size_t n	= a.u64();
@@ -231,21 +236,43 @@ std::string handle(const std::string& op, Args& a)
 				m.start = a.dbls();
 				m.delta = a.dbl();
 			}
+			else if(m.kind == "rs")
+				;
+			else if(m.kind == "rsd")
+				m.deltas = a.dbls();
+			else if(m.kind == "rs1")
+				m.delta = a.dbl();
 			else
 				throw BadArgs("member kind: " + m.kind);
 			m.pr = prog(a);
 		}
 		a.end();
-		auto run_member = [](Minimization& M, Member m, Out& o) {	 // by value: the library takes non-const references
+		// `aliased`: pass the object's own members; otherwise m.pp / m.start hold (copies of) the arguments
+		auto run_member = [](Minimization& M, Member m, Out& o, bool aliased) {	  // m by value: the library takes non-const references
 			std::vector<std::vector<double>> trace;
 			std::function<double(std::vector<double>)> f = [&](std::vector<double> x) {
 				trace.push_back(x);
 				return eval(m.pr, x);
 			};
 			std::vector<double> pmin;
-			if(m.kind == "nm")
+			if(aliased)
+			{
+				std::vector<std::vector<double>> copy = M.current_simplex;
+				o << "IN" << copy.size() << (copy.empty() ? (size_t) 0 : copy[0].size());
+				for(auto& r : copy)
+					o << r;
+				if(copy.empty())
+					throw BadArgs("restart before any run");
+				if(m.kind == "rs")
+					pmin = M.minimize(M.current_simplex, f);
+				else if(m.kind == "rsd")
+					pmin = M.minimize(M.current_simplex[0], m.deltas, f);
+				else
+					pmin = M.minimize(M.current_simplex[0], m.delta, f);
+			}
+			else if(m.kind == "nm" || m.kind == "rs")
 				pmin = M.minimize(m.pp, f);
-			else if(m.kind == "nmd")
+			else if(m.kind == "nmd" || m.kind == "rsd")
 				pmin = M.minimize(m.start, m.deltas, f);
 			else
 				pmin = M.minimize(m.start, m.delta, f);
@@ -257,17 +284,54 @@ std::string handle(const std::string& op, Args& a)
 			{
 				if(i)
 					o << "|";
-				run_member(M, ms[i], o);
+				run_member(M, ms[i], o, ms[i].restart());
 			}
 		});
+		// the copies of the aliased arguments, read back from the shared-object answer
+		std::vector<std::vector<std::string>> segs(1);
+		{
+			std::istringstream is(seq);
+			std::string t;
+			while(is >> t)
+			{
+				if(t == "|")
+					segs.emplace_back();
+				else
+					segs.back().push_back(t);
+			}
+		}
+		bool seq_ok = !segs[0].empty() && segs[0][0] == "ok" && segs.size() == ms.size();
+		if(seq_ok)
+			segs[0].erase(segs[0].begin());
 		std::string res = "ok SEQ " + seq + " FRESH";
 		for(size_t i = 0; i < ms.size(); i++)
 		{
 			if(i)
 				res += " |";
+			Member m = ms[i];
+			if(m.restart())
+			{
+				const auto& sg = segs.size() > i ? segs[i] : std::vector<std::string>();
+				if(!seq_ok || sg.size() < 3 || sg[0] != "IN")
+				{
+					res += " skip";
+					continue;
+				}
+				size_t mp = strtoul(sg[1].c_str(), 0, 10), nd = strtoul(sg[2].c_str(), 0, 10);
+				if(sg.size() < 3 + mp * nd || mp == 0)
+				{
+					res += " skip";
+					continue;
+				}
+				m.pp.assign(mp, std::vector<double>(nd));
+				for(size_t r = 0; r < mp; r++)
+					for(size_t c = 0; c < nd; c++)
+						m.pp[r][c] = strtod(sg[3 + r * nd + c].c_str(), 0);
+				m.start = m.pp[0];
+			}
 			res += " " + run_forked([&](Out& o) {
 				Minimization M(ftol);
-				run_member(M, ms[i], o);
+				run_member(M, m, o, false);
 			});
 		}
 		return res;
